@@ -410,7 +410,21 @@ Definition benign_stores : list (string * string) :=
    ("cgi_get_zconnZC", "zone->active_zconn");
    ("cgi_get_zboco", "zone->zboco");
    ("cg_zone_write", "base->zonemap"); ("cg_particle_write", "base->pzonemap");
-   ("cgi_read_base", "base->zonemap"); ("cgi_read_base", "base->pzonemap")].
+   ("cgi_read_base", "base->zonemap"); ("cgi_read_base", "base->pzonemap");
+   (* the lazily allocated EMPTY property containers of the writers themselves (BCProperty_t, GridConnectivityProperty_t,
+      ZoneBC_t): allocated only when absent, in which case the "already defined" test that follows cannot fire *)
+   ("cg_boco_write", "zone->zboco"); ("cg_boco_write", "zboco->name");
+   ("cg_bc_wallfunction_write", "boco->bprop"); ("cg_bc_wallfunction_write", "bprop->name");
+   ("cg_bc_area_write", "boco->bprop"); ("cg_bc_area_write", "bprop->name");
+   ("cg_conn_periodic_write", "conn->cprop"); ("cg_conn_periodic_write", "cprop->name");
+   ("cg_conn_average_write", "conn->cprop"); ("cg_conn_average_write", "cprop->name");
+   ("cg_1to1_periodic_write", "one21->cprop"); ("cg_1to1_periodic_write", "cprop->name");
+   ("cg_1to1_average_write", "one21->cprop"); ("cg_1to1_average_write", "cprop->name");
+   (* caches of file data / bookkeeping that no read call reports: the element connectivity, offsets and parent data read
+      on demand, the file version, the counters of nodes added / deleted *)
+   ("read_element_data", ""); ("read_offset_data", ""); ("read_parent_data", "");
+   ("cg_version", "cg->version"); ("cgi_new_node", "cg->added"); ("cgi_new_node_partial", "cg->added");
+   ("cgi_delete_node", "cg->deleted"); ("cgi_move_node", "cg->added")].
 Definition is_benign (fp : string * string) : bool :=
   existsb (fun q => String.eqb (fst fp) (fst q) && prefix (snd q) (snd fp)) benign_stores.
 Definition benign_set (mirrors : list (positive * (string * string))) : PositiveSet.t :=
@@ -422,21 +436,64 @@ Definition c12_benign_externs : list string := benign_externs.
 (* entry points outside the domain: they create / open files by name, configure or terminate the library *)
 Definition c12_file_ops : list string :=
   ["cg_open"; "cgio_open_file"; "cg_save_as"; "cg_close"; "cgio_close_file"; "cgio_cleanup"; "cg_error_exit"; "cgio_error_exit";
-   "cg_exit_on_errors"; "cgio_error_abort"].
+   "cg_exit_on_errors"; "cgio_error_abort"; "cg_is_cgns"; "cgio_check_file"; "cgio_compress_file"; "cgio_copy_file"].
 
-(* EXCEPTIONS of the CURRENT code.  A listed function is excused, never required to fail an obligation: repairing it in
-   /repo does not break anything here.  Each genuine defect is a finding of the check (keys in notes/C12.md). *)
-(* wrappers that delegate ALL validation to another entry point and afterwards look the new entity up again with the same
-   arguments (the second look-up cannot fail: the delegate has just validated them and created the entity) *)
-Definition revalidating_wrappers : list string :=
+(* ENTRY POINTS FOR WHICH AN OBLIGATION IS NOT ESTABLISHED ON THE CURRENT CODE.  A listed function is excused, never required
+   to fail an obligation: repairing it in /repo breaks nothing here.  The lists are exact for the current sources (the
+   extracted functions late_names / tolerant_names / silent_names12 recompute them on every run; checks/C12.py reports a
+   function that newly fails).  Categories:
+     [G] a genuine defect, confirmed on the real library by the check (finding keys in notes/C12.md);
+     [D] delegates to / shares the helper of a [G] function;
+     [W] a wrapper that delegates ALL validation and afterwards looks the new entity up again with the same arguments;
+     [P] the skeleton is path-insensitive where the code is not (exclusive paths inside a callee, flags that correlate a
+         message with a status, a branch that is dead in this configuration): no claim is made, the dynamic oracle covers it. *)
+Definition revalidating_wrappers : list string :=                                                     (* [W] *)
   ["cg_section_write"; "cg_poly_section_write"; "cg_sol_ptset_write"; "cg_particle_sol_ptset_write";
    "cg_subreg_ptset_write"; "cg_subreg_bcname_write"; "cg_subreg_gcname_write"; "cg_discrete_ptset_write"].
-(* validation after an effect (findings `late:<function>`) *)
-Definition known_late : list string := [].
-(* a failing argument check that is not turned into a failing return (findings `tolerated:<function>`) *)
-Definition known_tolerant : list string := [].
-(* failing returns without a message (findings `silent:<function>`) *)
-Definition known_silent : list string := [].
+(* validation-before-effect not established *)
+Definition known_late : list string :=
+  [(* [G] cgi_get_zcoorGC / cgi_get_particle_pcoorPC create the coordinates container (memory, and the file in MODIFY mode)
+      before the caller validates its other arguments *)
+   "cg_coord_info"; "cg_coord_read"; "cg_coord_general_read"; "cg_coord_id"; "cg_coord_write"; "cg_coord_partial_write";
+   "cg_coord_general_write"; "cg_particle_coord_info"; "cg_particle_coord_read"; "cg_particle_coord_general_read";
+   "cg_particle_coord_id"; "cg_particle_coord_write"; "cg_particle_coord_partial_write"; "cg_particle_coord_general_write";
+   (* [G] the ZoneGridConnectivity_t container is created and counted (zone->nzconn = 1) before the ranges / enums are checked *)
+   "cg_hole_write"; "cg_conn_write"; "cg_conn_write_short"; "cg_1to1_write";
+   (* [G] an argument is validated after an existing node was deleted / a new node was written *)
+   "cg_family_write"; "cg_geo_write"; "cg_node_geo_write"; "cg_gridlocation_write"; "cg_bcdataset_write"; "cg_boco_normal_write";
+   (* [P] cgi_array_general_write: the size checks against an existing array follow cgi_array_address, which allocates only
+      on the path where there is no existing array; [D] its callers *)
+   "cg_array_general_write"; "cg_field_write"; "cg_field_partial_write"; "cg_field_general_write"; "cg_particle_field_write";
+   "cg_particle_field_partial_write"; "cg_particle_field_general_write";
+   (* [P] element sections: range / size tests that follow the on-demand read of the existing connectivity or the
+      overwrite of an existing section; [D] the partial-write wrappers *)
+   "cg_section_partial_write"; "cg_poly_elements_partial_read"; "cg_elements_partial_write"; "cg_elements_general_write";
+   "cg_poly_elements_partial_write"; "cg_poly_elements_general_write"; "cg_parent_data_write"; "cg_parent_data_partial_write"].
+(* a failing argument check that is not turned into a failing return *)
+Definition known_tolerant : list string :=
+  [(* [G] the count functions report 0 with CG_OK when the base / zone index is invalid *)
+   "cg_ncoords"; "cg_nholes"; "cg_nconns"; "cg_n1to1"; "cg_n1to1_global"; "cg_nbocos"; "cg_particle_ncoords";
+   (* [P] the pointer is used again only after a delegate has validated the same indices *)
+   "cg_1to1_read_global"; "cg_particle_sol_size"; "cg_subreg_gcname_write";
+   (* [P] path utilities of cgns_io.c: tests of optional string arguments *)
+   "cgio_path_delete"; "cgio_find_file"].
+(* a failing return that is not preceded by a message on some path *)
+Definition known_silent : list string :=
+  [(* [G] cgi_get_particle_pcoorPC returns NULL without a message; [D] its callers *)
+   "cg_particle_coord_info"; "cg_particle_coord_read"; "cg_particle_coord_general_read"; "cg_particle_coord_id";
+   "cg_particle_coord_write"; "cg_particle_coord_partial_write"; "cg_particle_coord_general_write";
+   (* [G] bare `return CG_ERROR;` (unknown file type, element-size / data-dimension mismatch, empty family name) *)
+   "cg_boco_write"; "cg_bc_wallfunction_write"; "cg_bc_area_write"; "cg_conn_periodic_write"; "cg_conn_average_write";
+   "cg_1to1_periodic_write"; "cg_1to1_average_write"; "cg_hole_write"; "cg_conn_write"; "cg_conn_write_short"; "cg_1to1_write";
+   "cg_section_general_write"; "cg_section_write"; "cg_poly_section_write"; "cg_section_partial_write"; "cg_section_initialize";
+   "cg_ElementPartialSize"; "cg_elements_read"; "cg_poly_elements_read"; "cg_elements_partial_read"; "cg_elements_general_read";
+   "cg_poly_elements_general_read"; "cg_elements_partial_write"; "cg_elements_general_write"; "cg_poly_elements_partial_write";
+   "cg_poly_elements_general_write"; "cg_parent_data_write"; "cg_famname_read"; "cg_array_read_as"; "cg_dataclass_read";
+   "cg_coord_write"; "cg_coord_partial_write"; "cg_coord_general_write";
+   (* [P] navigation: cgi_next_posit returns a code and its caller chooses the message by that code *)
+   "cg_goto"; "cg_goto_f08"; "cg_gorel"; "cg_gorel_f08"; "cg_gopath"; "cg_golist";
+   (* [P] not status functions / file-name utilities *)
+   "cg_is_cgns"; "cg_free"; "cgio_find_file"; "cgio_compute_data_size"; "cgio_error_message"].
 Local Close Scope string_scope.
 
 (* ------------------------------------------------------------------------------------------------ table-level checks *)
